@@ -51,4 +51,8 @@ def urls_from_text(string):
         if i != stop:
             url = url[: i + 1]
 
+            # NOTE: trimming might have cut into the url's host
+            if not is_url(url, require_protocol=True, only_http_https=False):
+                continue
+
         yield url
